@@ -62,14 +62,29 @@ def add_intervals(rng, a, pool=None, p_mods=0.75):
     return pat
 
 
+# float modification values with 7..15 significant decimals (a serializer that rounds, a parser that truncates or a comparison
+# through text would change them); used at every position: residue, terminal, labile, unknown, interval, static rule values
+LONG_FLOATS = [15.9949146, 79.96633052, 0.984015583, 1234.56789012, -18.010564684, -17.026549101, 42.0105646837,
+               57.021463735, 1.00727646688, -0.984015583, 229.162932141, 0.0000012345, 100.00000001]
+LONG_STATIC = ['[+15.9949146]@M', '[+79.96633052]@S,T', '[+57.021463735]@C', '[-17.026549101]@Q,N-Term', '[+0.984015583]@N',
+               '[+42.0105646837]@N-Term', '[-0.984015583]@C-Term']
+
+
+def default_pool():
+    return annot.NAMED + annot.FORMULAS + annot.GLYCANS + annot.OTHER + annot.NUMS + annot.NUMS + LONG_FLOATS + LONG_FLOATS
+
+
 def gen(rng, min_len=1, max_len=25, kinds=None, p_iv=0.5, odd=0.0, value_pool=None, p=None):
     """annotation of C11/C07: every modification kind, intervals placed by pattern; `odd` = probability of the
     falsy-but-not-None containers ({} / []) that only the correspondence uses"""
     a = annot.gen_annotation(rng, min_len, max_len, p=rng.choice([0.15, 0.35, 0.6]) if p is None else p, kinds=kinds,
-                             intervals=False, value_pool=value_pool)
+                             intervals=False, value_pool=value_pool or default_pool())
+    if a._static_mods is not None and rng.random() < 0.5:
+        _, _, Mod = _types()
+        a._static_mods[rng.randrange(len(a._static_mods))] = Mod(rng.choice(LONG_STATIC), 1)
     pat = None
     if (kinds is None or 'intervals' in kinds) and rng.random() < p_iv:
-        pat = add_intervals(rng, a, pool=value_pool)
+        pat = add_intervals(rng, a, pool=value_pool or default_pool())
     if odd and rng.random() < odd:
         k = rng.choice(['internal', 'labile', 'intervals'])
         if k == 'internal' and a._internal_mods is None:
@@ -169,6 +184,25 @@ def read_perm(a, seed):
     twin = PA(_sequence=a._sequence, _internal_mods={i: [Mod(i, 1)] for i in range(n)})
     t = twin.shuffle(seed)
     return [t._internal_mods[j][0].val for j in range(n)]
+
+
+def in_reparse_domain(a):
+    """the annotation is one the grammar denotes, judged WITHOUT calling the parser or the serializer: non-empty letter
+    sequence, no empty containers, residue-mod keys inside the sequence, intervals non-empty, in sequence order, not
+    overlapping, adducts only with a charge. (The generators only use modification values that are valid ProForma.)"""
+    n = len(a._sequence)
+    if n == 0 or not a._sequence.isalpha() or is_odd(a) or out_of_range_keys(a):
+        return False
+    pos = 0
+    for iv in (a._intervals or []):
+        if not (pos <= iv.start < iv.end <= n) or (iv.mods is not None and len(iv.mods) == 0):
+            return False
+        pos = iv.end
+    if a._charge_adducts is not None and a._charge is None:
+        return False
+    if a._charge == 0:
+        return False
+    return True
 
 
 def roundtrips(a):
